@@ -107,7 +107,7 @@ def show(e, depth=0):
     if not isinstance(e, tuple) or not e:
         return str(e)
     k = e[0]
-    if depth > 6:
+    if depth > 12:
         return "..."
     if k == "const":
         op = e[1]
